@@ -408,7 +408,8 @@ def _lines_inside_string_literals(code: str) -> Set[int]:
     linenos = set()
     fstring_starts = []
     try:
-        for token in tokenize.generate_tokens(io.StringIO(code).readline):
+        # newline="": lines end at \n, \r\n and \r, like core.split_lines splits them
+        for token in tokenize.generate_tokens(io.StringIO(code, newline="").readline):
             token_name = tokenize.tok_name[token.type]
             if token_name == "FSTRING_START":
                 fstring_starts.append(token.start[0])
@@ -446,7 +447,7 @@ def _pad_braces(source: str, start: int, end: int, new_code: str) -> str:
 
 def _significant_lines(code: str) -> Sequence[str]:
     """The lines of code without blank lines and trailing whitespace."""
-    return [line.rstrip() for line in code.splitlines() if line.strip()]
+    return [line.rstrip() for line in core.split_lines(code) if line.strip()]
 
 
 def _same_significant_lines(code: str, new_code: str) -> bool:
@@ -486,6 +487,13 @@ def _shares_call_parentheses(source: str, rng: core.Range, code: str) -> bool:
     return True
 
 
+def _indent_line(line: str, indent: int) -> str:
+    """Indent a line of code, and remove the blanks at its end. The line terminator is kept."""
+    content = core.strip_line_terminator(line)
+    terminator = line[len(content) :]
+    return f"{' ' * indent}{content}".rstrip(" \t\f") + terminator
+
+
 def _do_rewrite(
     source: str, rewrite: _Rewrite, *, fix_function_name: str = "", scheduled: bool = False
 ) -> str:
@@ -511,8 +519,8 @@ def _do_rewrite(
             if isinstance(old, core.Range):
                 before = source[: old.end].expandtabs()
                 if before:
-                    last_line = before.splitlines()[-1]
-                    indent = len(last_line) - len(last_line.rstrip())
+                    last_line = core.strip_line_terminator(core.split_lines(before)[-1])
+                    indent = len(last_line) - len(last_line.rstrip(" "))
                     new_code += " " * indent
 
     else:
@@ -558,7 +566,7 @@ def _do_rewrite(
                 choice = candidate
 
         if new_code and not core.is_valid_python(choice):
-            new_code_lines = new_code.splitlines(keepends=True)
+            new_code_lines = core.split_lines(new_code)
             for extra_indent in range(0, 16, 4):
                 candidate = (
                     source[: old.start]
@@ -576,7 +584,9 @@ def _do_rewrite(
 
         return new_source
 
-    lines = new_code.splitlines(keepends=True)
+    # Lines as the python parser counts them: str.splitlines() also splits at form feeds, U+2028
+    # and more, which are ordinary characters inside a string literal.
+    lines = core.split_lines(new_code)
     indent = getattr(old, "col_offset", getattr(new, "col_offset", 0))
     indents = {**{i: indent for i in range(len(lines))}, 0: len(code) - len(code.lstrip(" "))}
 
@@ -584,10 +594,7 @@ def _do_rewrite(
     for lineno in _lines_inside_string_literals(new_code):
         indents[lineno] = 0
 
-    new_code = "".join(
-        f"{' ' * indents[i]}{code}".rstrip() + ("\n" if code.endswith("\n") else "")
-        for i, code in enumerate(lines)
-    )
+    new_code = "".join(_indent_line(code, indents[i]) for i, code in enumerate(lines))
 
     if core.has_ignore_comment(source, core.Range(start, end)):
         return source
